@@ -443,8 +443,7 @@ func c06Hash(ss []string) string {
 }
 
 // c06Overlap reports whether two activators' read..last-write windows overlap in
-// the schedule (the only schedules in which the one-time guarantee is at stake),
-// and the number of context switches inside a window.
+// the schedule (the only schedules in which the one-time guarantee is at stake).
 func c06Overlap(tr []string, sc c06Scenario) bool {
 	type win struct{ lo, hi int }
 	wins := map[string]*win{}
@@ -913,7 +912,6 @@ func TestVerifC06Faults(t *testing.T) {
 
 	// fault-free write counts
 	count := func(sc c06Scenario) (int, []string) {
-		s := vk.NewSched(nil)
 		w := c06NewWorld(t, sc.Nodes, 10*time.Minute)
 		defer w.close()
 		var ops []string
@@ -926,7 +924,6 @@ func TestVerifC06Faults(t *testing.T) {
 			}
 			return nil
 		})
-		_ = s
 		for i, th := range sc.Threads {
 			c := &c06Call{Thread: th.Name, Kind: th.Kind, Node: th.Node, Client: th.Client, Listen: fmt.Sprintf("0.0.0.0:%d", 7001+i)}
 			w.do(c)
@@ -963,9 +960,8 @@ func TestVerifC06Faults(t *testing.T) {
 	run.Observe("single_fault_positions", n1)
 
 	// (b) with a concurrent second activator on another node
+	// two overlapping activators perform up to 2*n1 writes (+ rollback writes)
 	two := c06Scenarios["2act-cross-node"]
-	n2, _ := count(two) // sequential: second one fails early, so n2 ~ n1; use 2*n1 as the bound
-	_ = n2
 	maxI := 2*n1 + 2
 	pre := run.Pick(1, 2)
 	capPer := run.Pick(40, 3000)
